@@ -3,6 +3,8 @@ import PyamgV.Proofs.C13Wrap
 import PyamgV.Proofs.C13Rat
 import PyamgV.Proofs.ExtC13Pmis
 import PyamgV.Proofs.ExtRsWholeWrap
+import PyamgV.Proofs.ExtC17R5C13Mis
+import PyamgV.Proofs.ExtC17R5Par
 
 /-! # C13 — coarse/fine splittings are well formed and cover the strength graph
 
@@ -114,6 +116,26 @@ restate kernel_rs_whole_safe := PyamgV.RS.rs_cf_splitting_safe
 /-- structurally valid arrays have all row entries `< n` (the hypothesis `SOK` of the kernel-level theorems) -/
 restate kernel_rs_wellformed_rows := PyamgV.RS.WFp.sok
 
+/-! ## extension E46: `MIS(G, weights, maxiter)` (model `C17R5.misSplit` of `Model/ExtC17R5Mis.lean`: `remove_diagonal`, then the
+array model of `maximal_independent_set_parallel` with the kernel's stopping rule; driver op `c13r5_mis`, compared with
+`split.MIS` for `maxiter = None` and for truncated runs) -/
+/-- `MIS(G, w, maxiter)` is the result of `k ≤ maxiter` sweeps -/
+restate mis_truncated_is_k_sweeps := PyamgV.C17R5.misSplit_sweeps
+/-- **truncated runs are partial maximal independent sets**: symmetric off-diagonal pattern, ANY weights (ties allowed), ANY
+`maxiter` (and `None`): flags `-1/0/1`, every neighbour of a selected node is marked `0`, every node marked `0` has a selected
+neighbour -/
+restate mis_partial := PyamgV.C17R5.mis_partial
+/-- … in particular the selected set is independent after any number of passes -/
+restate mis_partial_independent := PyamgV.C17R5.mis_partial_independent
+/-- the full run (`maxiter = None`, strictly totally ordered weights) is a maximal independent set with 0/1 flags -/
+restate mis_full := PyamgV.C17R5.mis_full
+/-- kernel level, ANY structurally valid pattern (symmetric or not), any weights, any `max_iters`, any number of passes of the
+checked model `C17R4.misParallel` started without entry `C`: a node marked `C` has no other node of its row marked `C` or left
+`active`, and every access was in range -/
+restate kernel_mis_parallel_partial_any_pattern := PyamgV.C17R5.misParallel_partial
+/-- kernel level: with `max_iters = -1` the checked model terminates within `n + 1` passes and leaves no `active` entry -/
+restate kernel_mis_parallel_checked_total := PyamgV.C17R5.misParallel_total
+
 /-! ## non-vacuity: the path 0–1–2–3 with a stored diagonal (CSR of the 1-D Poisson pattern) -/
 def path4 : PyamgV.C13.Pat := ⟨4, #[0,2,5,8,10], #[0,1,0,1,2,1,2,3,2,3]⟩
 example : PyamgV.C13.offRow path4 1 = [0, 2] := by decide
@@ -129,6 +151,15 @@ example : PyamgV.RS.WFp (PyamgV.C13.prepS path4) 4 := PyamgV.C13.prepS_WFp path4
 /-- the checked whole-kernel model on the off-diagonal arrays of this pattern runs clean and returns C,F,C,F -/
 example : (PyamgV.RS.runCk PyamgV.RS.path4 PyamgV.RS.path4).ok = true := by decide
 example : (PyamgV.RS.runCk PyamgV.RS.path4 PyamgV.RS.path4).val = #[1, 0, 1, 0] := by decide
+/-- E46: the kernel model of `MIS` on the off-diagonal arrays of this pattern (`prepS path4`, printed by `c13_prep`) with tied weights
+`1,1,2,2`: one pass selects node 3 only and leaves nodes 0 and 1 undecided (`-1`): a partial independent set; two passes decide
+everything, as does the untruncated run -/
+example : (PyamgV.G.misParallel ⟨4, #[0,1,3,5,6], #[1,0,2,1,3,2]⟩ (-1) 1 0 (#[1,1,2,2] : Array Int) (some 1)
+    (Array.replicate 4 (-1))).1 = #[-1, -1, 0, 1] := by decide
+example : (PyamgV.G.misParallel ⟨4, #[0,1,3,5,6], #[1,0,2,1,3,2]⟩ (-1) 1 0 (#[1,1,2,2] : Array Int) (some 2)
+    (Array.replicate 4 (-1))).1 = #[0, 1, 0, 1] := by decide
+example : (PyamgV.G.misParallel ⟨4, #[0,1,3,5,6], #[1,0,2,1,3,2]⟩ (-1) 1 0 (#[1,1,2,2] : Array Int) none
+    (Array.replicate 4 (-1))).1 = #[0, 1, 0, 1] := by decide
 /-- the only hypothesis of `pmis_array_form_eq` (strictly totally ordered weights) is satisfiable -/
 example : PyamgV.WOrd Rat := PyamgV.C13.ratOrd
 
